@@ -37,7 +37,9 @@ MULTIPASS = [
 ]
 
 
-def gen(rng, root, dangling=True, unknown=True, db_events=True, nplat=None, write=True, multipass=True):
+def gen(rng, root, dangling=True, unknown=True, db_events=True, nplat=None, write=True, multipass=True, shapes=None):
+    """`shapes` (default None: nothing added, the random stream is the old one): an iterable of shape names out of
+    `SHAPES` that `add_shapes` grafts onto the generated code base after everything else has been drawn."""
     nplat = nplat if nplat is not None else rng.randint(1, 3)
     desc = CB.gen_codebase(rng, root, nplat=nplat, dangling=dangling, unknown=unknown, write=False)
     desc["dbmeta"] = {}
@@ -99,9 +101,189 @@ def gen(rng, root, dangling=True, unknown=True, db_events=True, nplat=None, writ
                 entries.insert(pos, ent)
                 meta.insert(pos, {"missing": True, "compiler": os.path.basename(ent["arguments"][0]), "known": True, "unrecognised": []})
         desc["dbmeta"][pname] = meta
+    if shapes:
+        desc["shapes"] = add_shapes(rng, desc, shapes)
     if write:
         CB.write_codebase(root, desc)
     return desc
+
+
+# --------------------------------------------------------------------------
+# shapes of the property's quantifier the shared generator does not reach: one include DIRECTIVE (one node of the shared
+# parse tree of a header) that is evaluated several times with another outcome each time, and one file CONTENT that
+# occurs several times.  Everything is expressed in the code base itself; `expected` needs no knowledge of the shapes.
+# --------------------------------------------------------------------------
+SHAPES = ("sel", "dup", "pg")
+UNKNOWN_DIRECTIVES = ['#ident "v1.2"', "#include_next <stdio.h>", "#assert machine(x86)", '#import "legacy.h"', '#sccs "@(#)zc"',
+                      "#unassert machine", "#foo bar", "#  ident \"spaced\""]
+
+
+def _live(desc):
+    """[(platform, index)] of the database entries whose file exists"""
+    return [(p, i) for p, ms in desc["dbmeta"].items() for i, m in enumerate(ms) if not m["missing"]]
+
+
+def _add_entry(desc, pname, src, extra=()):
+    desc["platforms"][pname].append({"file": src, "directory": ".", "arguments": ["gcc"] + list(extra) + ["-c", src]})
+    desc["dbmeta"][pname].append({"missing": False, "compiler": "gcc", "known": True, "unrecognised": []})
+    return len(desc["platforms"][pname]) - 1
+
+
+def _units(rng, desc, want=2):
+    """a platform with at least `want` live entries (entries are added - the same file compiled once more, or another
+    source - when the generated database has fewer); returns (platform, [entry index])"""
+    if not desc["platforms"]:
+        desc["platforms"]["cpu"], desc["dbmeta"]["cpu"] = [], []
+    if not desc["sources"]:
+        desc["sources"].append("shape_main.c")
+        desc["texts"]["shape_main.c"] = ["int shape_main;"]
+    pname = rng.choice(sorted(desc["platforms"]))
+    idx = [i for p, i in _live(desc) if p == pname]
+    while len(idx) < want:
+        idx.append(_add_entry(desc, pname, rng.choice(desc["sources"])))
+    return pname, idx
+
+
+def _text_key(desc, f):
+    return next(k for k in desc["texts"] if posixpath.normpath(k) == posixpath.normpath(f))
+
+
+def _inc(src, hdr):
+    return '#include "%s"' % posixpath.relpath(hdr, posixpath.dirname(src) or ".")
+
+
+def _fresh(desc, stem):
+    k = 0
+    while any(posixpath.basename(p).startswith(f"{stem}{k}") for p in desc["texts"]):
+        k += 1
+    return k
+
+
+def shape_sel(rng, desc):
+    """a selecting header `#include SELk_IMPL` (one directive, one tree node) whose macro differs between the translation
+    units of ONE platform (-D on the command lines, or the default the source supplies) and between two inclusions in one
+    unit (#undef / #define in between, the X-macro idiom); the values differ in whether the file exists and in the form"""
+    k = _fresh(desc, "sel")
+    d = rng.choice(desc["dirs"])
+    mac = f"SEL{k}_IMPL"
+    sel = posixpath.join(d, f"sel{k}.h")
+    desc["texts"][posixpath.join(d, f"sel{k}_a.h")] = [f"int sel{k}_a;"]
+    desc["texts"][sel] = rng.choice([[], [f"int sel{k}_before;"]]) + [f"#include {mac}"] + rng.choice([[], [f"int sel{k}_after;"]])
+    good = [f'"sel{k}_a.h"', f"<sel{k}_a.h>"]            # the angle form resolves only where -I names the directory
+    bad = [f'"sel{k}_gone.h"', f"<sel{k}_gone.h>", f'"sel{k}_gone2.h"', f"<sys/sel{k}_gone.h>"]
+    pname, idx = _units(rng, desc, 2)
+    ents = desc["platforms"][pname]
+    chosen = rng.sample(idx, 2) + [i for i in idx if rng.random() < 0.3]
+    tags = set()
+    # per translation unit: its own value on the command line; at least one that exists and one that does not, either order
+    vals = [rng.choice(good), rng.choice(bad)]
+    rng.shuffle(vals)
+    done = set()
+    for n, i in enumerate(dict.fromkeys(chosen)):
+        v = vals[n] if n < 2 else rng.choice(good + bad)
+        a = ents[i]["arguments"]
+        a[-2:-2] = [f"-D{mac}={v}"] + (["-I", d] if d and rng.random() < 0.5 else [])
+        done.add(_text_key(desc, ents[i]["file"]))
+    tags.add("sel:units")
+    for key in sorted(done):
+        # (every other command that compiles the file gets the default)
+        lines = [f"#ifndef {mac}", f"#define {mac} {rng.choice(good[:1] + bad)}", "#endif", _inc(key, sel)]
+        if rng.random() < 0.6:
+            # the same directive again in this unit with other values
+            for _ in range(rng.randint(1, 2)):
+                lines += [f"#undef {mac}", f"#define {mac} {rng.choice(good[:1] + bad)}", _inc(key, sel)]
+            tags.add("sel:redefined")
+        desc["texts"][key] = list(desc["texts"][key]) + lines
+    return tags
+
+
+def shape_dup(rng, desc):
+    """byte-identical copies of one file (vendored / generated copies: same name in two directories, or two names) whose
+    contents hold directives the analysis does not implement: every copy is a file of its own, each occurrence is an event"""
+    k = _fresh(desc, "zcompat")
+    ext = rng.choice(["h", "h", "hpp", "c"])
+    body = [f"int zc{k};"]
+    for _ in range(rng.randint(1, 3)):
+        body.insert(rng.randint(0, len(body)), rng.choice(UNKNOWN_DIRECTIVES))
+    if rng.random() < 0.4:
+        body.insert(rng.randint(0, len(body)), rng.choice(["#line 40", "#warning old", "#error no"]))
+    if rng.random() < 0.4:
+        body.insert(rng.randint(1, len(body)), rng.choice([f'#include "zc{k}_gone.h"', f"#include <zc{k}_gone.h>"]))
+    if ext != "c" and rng.random() < 0.5:
+        body = [f"#ifndef ZC{k}_H", f"#define ZC{k}_H"] + body + ["#endif"]
+    dirs = list(desc["dirs"])
+    rng.shuffle(dirs)
+    ncopy = rng.randint(2, 3)
+    paths = []
+    for n in range(ncopy):
+        if n < len(dirs) and rng.random() < 0.8:
+            p = posixpath.join(dirs[n], f"zcompat{k}.{ext}")
+        else:
+            p = posixpath.join(rng.choice(dirs), f"zcompat{k}_copy{n}.{ext}")
+        if p not in desc["texts"]:
+            desc["texts"][p] = list(body)
+            paths.append(p)
+    tags = {"dup:%s" % ext, "dup:copies=%d" % len(paths)}
+    if ext == "c":
+        # some copies are compiled, some only lie in the tree
+        pname, _ = _units(rng, desc, 1)
+        for p in paths:
+            if rng.random() < 0.5:
+                _add_entry(desc, pname, p)
+                tags.add("dup:compiled")
+    else:
+        live = _live(desc)
+        for p in paths:
+            if live and rng.random() < 0.6:
+                pn, i = rng.choice(live)
+                key = _text_key(desc, desc["platforms"][pn][i]["file"])
+                desc["texts"][key] = list(desc["texts"][key]) + [_inc(key, p)]
+                tags.add("dup:included")
+    return tags
+
+
+def shape_pg(rng, desc):
+    """a partially guarded header (single-header-library layout): `#ifndef G ... #endif` followed by a second conditional
+    section that holds dangling includes; a unit includes it twice and defines the section's macro in between"""
+    k = _fresh(desc, "pg")
+    d = rng.choice(desc["dirs"])
+    g, x = f"PG{k}_H", f"PG{k}_IMPLEMENTATION"
+    hdr = posixpath.join(d, f"pg{k}.h")
+    incs = rng.sample([f'#include "pg{k}_impl.h"', f"#include <pg{k}_arch.h>", f'#include "detail/pg{k}_impl.h"'], rng.randint(1, 2))
+    opener = rng.choice([f"#ifdef {x}", f"#if defined({x})", f"#if defined({x}) && !defined({x}_DONE)"])
+    inner = [f"int pg{k}_iface;"] + ([f'#include "pg{k}_types.h"'] if rng.random() < 0.3 else [])
+    tail = incs + ([f"int pg{k}_impl;"] if rng.random() < 0.5 else [])
+    if opener.endswith("_DONE)") :
+        tail.append(f"#define {x}_DONE")
+    desc["texts"][hdr] = rng.choice([[], ["// single-header library"], [""]]) + [f"#ifndef {g}", f"#define {g}"] + inner + ["#endif", opener] + tail + ["#endif"]
+    pname, idx = _units(rng, desc, 1)
+    ents = desc["platforms"][pname]
+    tags = {"pg:twice"}
+    keys = {_text_key(desc, ents[i]["file"]) for i in rng.sample(idx, min(len(idx), rng.randint(1, 2)))}
+    for n, key in enumerate(sorted(keys)):
+        lines = [_inc(key, hdr)]
+        if n == 0 or rng.random() < 0.7:
+            lines += rng.choice([[], [f"int use_pg{k};"]]) + [f"#define {x}" + rng.choice(["", " 1"]), _inc(key, hdr)]
+            if rng.random() < 0.3:
+                lines.append(_inc(key, hdr))
+                tags.add("pg:thrice")
+        else:
+            tags.add("pg:interface-only-unit")
+        desc["texts"][key] = list(desc["texts"][key]) + lines
+    if rng.random() < 0.25:
+        # one command defines the section's macro itself: the first inclusion reaches the section as well
+        a = ents[rng.choice(idx)]["arguments"]
+        a[-2:-2] = [f"-D{x}"]
+        tags.add("pg:-D")
+    return tags
+
+
+def add_shapes(rng, desc, shapes=SHAPES):
+    """graft the named shapes onto `desc` (in place); returns the sorted list of tags describing what was added"""
+    tags = set()
+    for s in shapes:
+        tags |= {"sel": shape_sel, "dup": shape_dup, "pg": shape_pg}[s](rng, desc)
+    return sorted(tags)
 
 
 def forced_of(args):
